@@ -12,16 +12,17 @@ import (
 
 // the id universes of spec/ldiff/LdiffMC.tla (id -> path of its hash); TestRecord logs model names
 type universeDef struct {
-	Name string
-	Df   int
-	D    int
-	Ids  map[string][]int
+	Name    string
+	Df      int
+	D       int
+	Ids     map[string][]int
+	MixedDf bool // indexes may also use Df^2 (the model has LGs = {1, 2} for this universe)
 }
 
 var universes = []universeDef{
-	{"u2", 2, 3, map[string][]int{"a": {0, 0, 0}, "b": {0, 0, 1}, "c": {0, 1, 0}, "d": {1, 0, 0}, "e": {1, 1, 0}, "f": {1, 1, 1}}},
-	{"u3", 3, 3, map[string][]int{"a": {0, 0, 0}, "b": {0, 0, 1}, "c": {0, 0, 2}, "d": {0, 1, 0}, "e": {0, 2, 2}, "f": {2, 1, 0}}},
-	{"u4", 2, 4, map[string][]int{"a": {0, 0, 0, 0}, "b": {0, 0, 0, 1}, "c": {0, 0, 1, 0}, "d": {0, 1, 0, 0}, "e": {1, 0, 0, 0}}},
+	{Name: "u2", Df: 2, D: 3, Ids: map[string][]int{"a": {0, 0, 0}, "b": {0, 0, 1}, "c": {0, 1, 0}, "d": {1, 0, 0}, "e": {1, 1, 0}, "f": {1, 1, 1}}},
+	{Name: "u3", Df: 3, D: 3, Ids: map[string][]int{"a": {0, 0, 0}, "b": {0, 0, 1}, "c": {0, 0, 2}, "d": {0, 1, 0}, "e": {0, 2, 2}, "f": {2, 1, 0}}},
+	{Name: "u4", Df: 2, D: 4, MixedDf: true, Ids: map[string][]int{"a": {0, 0, 0, 0}, "b": {0, 0, 0, 1}, "c": {0, 0, 1, 0}, "d": {0, 1, 0, 0}, "e": {1, 0, 0, 0}}},
 }
 
 type traceReq struct {
@@ -68,9 +69,6 @@ func TestRecord(t *testing.T) {
 	events := 0
 	for _, u := range universes {
 		for _, kind := range []string{"cur", "leg"} {
-			if u.Name == "u4" && kind == "leg" {
-				continue
-			}
 			tw := vfutil.NewTraceWriter(filepath.Join(dir, u.Name+"_"+kind+".ndjson"))
 			for r := 0; r < runs; r++ {
 				if corrupt != "" && r == runs/2 {
@@ -99,7 +97,15 @@ func guarded(f func()) (p any) {
 var corruptPending bool
 
 func recordRun(tw *vfutil.TraceWriter, rep *vfutil.Report, u universeDef, legacyRemote bool, rnd *rand.Rand, corrupt string) int {
-	cfg := bcfg{Df: u.Df, D: u.D, Th: 1 + rnd.Intn(3), Ids: u.Ids, Peers: []string{"L", "R"}}
+	// every index gets its own threshold; in the depth-4 universe also its own divide factor (2 or 4)
+	cfg := bcfg{Df: u.Df, D: u.D, Par: map[string]bpar{}, Ids: u.Ids, Peers: []string{"L", "R"}}
+	for _, p := range cfg.Peers {
+		par := bpar{Th: 1 + rnd.Intn(3), Lg: 1}
+		if u.MixedDf && rnd.Intn(2) == 0 {
+			par.Lg = 2
+		}
+		cfg.Par[p] = par
+	}
 	if legacyRemote {
 		cfg.Legacy = []string{"R"}
 	}
@@ -110,7 +116,7 @@ func recordRun(tw *vfutil.TraceWriter, rep *vfutil.Report, u universeDef, legacy
 		tw.Emit(e)
 		n++
 	}
-	emit(traceEvent{"ev": "Reset", "th": cfg.Th, "st": map[string]proj{"L": w.project(w.peers["L"]), "R": w.project(w.peers["R"])}})
+	emit(traceEvent{"ev": "Reset", "par": cfg.Par, "st": map[string]proj{"L": w.project(w.peers["L"]), "R": w.project(w.peers["R"])}})
 	steps := 10 + rnd.Intn(10)
 	for s := 0; s < steps; s++ {
 		peer := []string{"L", "R"}[rnd.Intn(2)]
@@ -133,7 +139,7 @@ func recordRun(tw *vfutil.TraceWriter, rep *vfutil.Report, u universeDef, legacy
 				els = append(els, el{w.ids[id], headStr(h)})
 			}
 			if p := guarded(func() { x.Set(els...) }); p != nil {
-				rep.Violate("panic/Set", fmt.Sprintf("Set(%v) panicked while recording (df=%d th=%d): %v", mels, cfg.Df, cfg.Th, p), nil)
+				rep.Violate("panic/Set", fmt.Sprintf("Set(%v) panicked while recording (%v): %v", mels, cfg, p), nil)
 				return n
 			}
 			rep.Case(fmt.Sprintf("trace/%s/Set%d/df%d", peer, min(cnt, 2), u.Df))
@@ -147,7 +153,7 @@ func recordRun(tw *vfutil.TraceWriter, rep *vfutil.Report, u universeDef, legacy
 			id := names[rnd.Intn(len(names))]
 			var err error
 			if p := guarded(func() { err = x.RemoveId(w.ids[id]) }); p != nil {
-				rep.Violate("panic/RemoveId", fmt.Sprintf("RemoveId(%s) panicked while recording (df=%d th=%d): %v", id, cfg.Df, cfg.Th, p), nil)
+				rep.Violate("panic/RemoveId", fmt.Sprintf("RemoveId(%s) panicked while recording (%v): %v", id, cfg, p), nil)
 				return n
 			}
 			found := err == nil
@@ -178,7 +184,7 @@ func recordRun(tw *vfutil.TraceWriter, rep *vfutil.Report, u universeDef, legacy
 			ev := traceEvent{"ev": "Diff", "variant": variant, "transport": tr, "err": run.Err + run.Panic,
 				"new": w.names2(run.Got.New), "ours": w.names2(run.Got.Ours), "theirs": w.names2(run.Got.Theirs), "removed": removed,
 				"asked": asked}
-			rep.Case(fmt.Sprintf("trace/Diff/%s/%s/df%d", variant, tr, u.Df))
+			rep.Case(fmt.Sprintf("trace/Diff/%s/%s/df%d/%s", variant, tr, u.Df, cfg.mixed()))
 			emit(ev)
 		}
 	}
